@@ -13,7 +13,8 @@
    pause_for_debug: the handler first yields Msg('pause') (phase PhPause); finalize_wrapper does so for
    every exception that is not a GeneratorExit kind (base_handler = true), contingency_wrapper for
    Exception kinds. *)
-From BV Require Import Base.Prelude Gen.Coalg Gen.PyGen Gen.Wrappers Proofs.Coalg Proofs.Wrappers Proofs.WrappersThm.
+From BV Require Import Base.Prelude Gen.Coalg Gen.PyGen Gen.Wrappers Proofs.Coalg Proofs.Wrappers Proofs.WrappersThm
+  Proofs.WrappersSeq.
 From BV Require Gen.Tie.
 
 Definition exc_hole {P} (exc_plan : exn -> P) (dflt : P) : option exn -> P :=
@@ -48,6 +49,18 @@ Theorem C22_finalize_decorator_refines_spec :
     = ltrace (cw_lresume hres true (finalize_opts false) true 1 2 1 (fun _ => fin_plan) fin_plan fin_plan) (PhStart p) s.
 Proof. exact @finalize_decorator_refines. Qed.
 Print Assumptions C22_finalize_decorator_refines_spec.
+
+(* the decorated function invoked twice in a row by one caller: the single-call specification run twice,
+   the second call from ITS OWN start with ITS OWN fresh final-plan instance (two_lresume, Gen/Wrappers.v;
+   plans of the second call are numbered 2, 3 in the call log) *)
+Theorem C22_finalize_decorator_fresh_cleanup_per_call :
+  forall (P : Type) (hres : P -> input -> outcome P) (fin_plan : P) (p1 p2 : P) (s : list input) (fuel : nat),
+    ltrace (pg_lresume hres (80 + fuel))
+           (pg_init (decorated_calls 2)
+                    [HLive p1; HFun (fun _ => fin_plan); HLive p2; HFun (fun _ => fin_plan)]) s
+    = ltrace (two_lresume hres fin_plan) (QStart p1 p2) s.
+Proof. exact @two_calls_refine. Qed.
+Print Assumptions C22_finalize_decorator_fresh_cleanup_per_call.
 
 (* the specification with skip = false IS Python's own statement (no cleanup flag) *)
 Theorem C22_python_try_is_spec :
@@ -120,4 +133,15 @@ Example C22_nonvacuous :
   let t := ltrace (w_lresume 60) (pg_init (finalize_wrapper_prog false) [HLive (cl_init nv_plan); HLive (cl_init nv_final)]) nv_script in
   map fst t = [OYield 0; OYield 2; ORaise ERequestAbort] /\ count_enter 1 t = 1 /\
   no_close nv_script = true /\ ends_plainly t = true.
+Proof. vm_compute. repeat split; reflexivity. Qed.
+
+(* two calls, each runs its own cleanup once: messages 2,3 of the final plan appear after each call *)
+Example C22_two_calls_nonvacuous :
+  let t := ltrace (w_lresume 80)
+                  (pg_init (decorated_calls 2)
+                           [HLive (cl_init (SYield None 0)); HFun (fun _ => cl_init nv_final);
+                            HLive (cl_init (SYield None 0)); HFun (fun _ => cl_init nv_final)])
+                  [Send VNone; Send VNone; Send VNone; Send VNone; Send VNone; Send VNone; Send VNone] in
+  map fst t = [OYield 0; OYield 2; OYield 3; OYield 0; OYield 2; OYield 3; OReturn VNone] /\
+  count_enter 1 t = 1 /\ count_enter 3 t = 1.
 Proof. vm_compute. repeat split; reflexivity. Qed.
